@@ -84,6 +84,13 @@ CLAIMS = {
              'argument shape with bytes, return form (incl. falsy values the solver picks) and connected/unconnected '
              'namespace, for one event and for two consecutive events; exhaustive within the palette.',
         ref='5 C05', technique='symbolic execution (CrossHair+z3) of the real event dispatch vs reference expectations'),
+    'C03': dict(
+        text='Inductive step over room state, decided by symbolic execution of the real Server/AsyncServer + Manager/'
+             'AsyncManager: every membership matrix over 3 clients x 3 rooms (string, integer, session-id-named) is a '
+             'pre-state, one arbitrary operation is applied, and recipients of eight probe emits (from the per-transport '
+             'outboxes, exactly-once), rooms() and container hygiene are compared with a set-based model. Covers '
+             'histories of any length over that universe as far as observations depend on the state only.',
+        ref='5 C03', technique='symbolic execution (CrossHair+z3): one inductive step from every bounded room state'),
 }
 
 PENDING = 'check not built yet in this tree (work in progress); no claim is made'
